@@ -487,7 +487,7 @@ func checkC10(c *Ctx) error {
 	}
 	nLex := c.N(1600, 20000)
 	var mu sync.Mutex
-	_ = mu
+
 	parallel(4, 4, func(w int) {
 		r := c.R.Derive("lex", w)
 		dir := filepath.Join(tmp, fmt.Sprintf("w%d", w))
